@@ -34,6 +34,9 @@ def run(ctx):
     res.corr_failures += fails
     rng = ctx.rng(22)
     for c, o in zip(cases, impl):
+        if o is None:      # implementation raised: already reported as a correspondence failure
+            res.evaluations += 1
+            continue
         res.evaluations += 1
         stats["iters"][c["iters"]] = stats["iters"].get(c["iters"], 0) + 1
         stats["modes"][c["mode"]] = stats["modes"].get(c["mode"], 0) + 1
@@ -58,8 +61,13 @@ def run(ctx):
         if topo:
             stats["idem_checked"] += 1
             c2 = dict(c, t=o.copy())
-            o2 = cc.run_impl(c2)
-            if not np.array_equal(o2, o):
+            try:
+                o2 = cc.run_impl(c2)
+            except Exception as e:  # noqa: BLE001
+                o2 = None
+                res.violations.append(Violation("not-idempotent",
+                                                f"constraining already constrained times raised {type(e).__name__} (iters={c['iters']})", rp))
+            if o2 is not None and not np.array_equal(o2, o):
                 res.violations.append(Violation("not-idempotent",
                                                 f"constraining constrained times changed {int(np.sum(o2 != o))} node(s) (iters={c['iters']})", rp))
         # (2) strictly satisfied inputs come back unchanged, for several iteration counts
@@ -75,9 +83,12 @@ def run(ctx):
             if ok:
                 stats["strict_inputs"] += 1
                 for it in (0, 1, 5, 100):
-                    o3 = _constrain_ages(t.copy(), c["fixed"], c["ep"], c["ec"], c["eps"], it)
+                    try:
+                        o3 = _constrain_ages(t.copy(), c["fixed"], c["ep"], c["ec"], c["eps"], it)
+                    except Exception:  # noqa: BLE001
+                        o3 = None
                     res.evaluations += 1
-                    if not np.array_equal(o3, t):
+                    if o3 is None or not np.array_equal(o3, t):
                         res.violations.append(Violation("strict-input-changed",
                                                         f"strictly valid times changed with iters={it}", dict(rp, times=[f2h(x) for x in t], iters=it)))
                         break
